@@ -26,7 +26,8 @@ NNew == phase = "idle" /\ Step([a |-> "new"])
 NSnap == /\ nw < MaxCalls
          /\ \E g \in HiGaps, i \in WorldIds :
               (IF Gap(g) <= 0 THEN TRUE ELSE wlast <= 2147483647 - Gap(g)) /\ Step([a |-> "snap", t |-> wlast + Gap(g), world |-> W(i)])
-NMsg == nw < MaxCalls /\ \E m \in MsgIds : Step([a |-> "msg", m |-> m])
+\* message ids >= 100000 are long broadcasts (expensive to replay): only as the first call
+NMsg == nw < MaxCalls /\ \E m \in MsgIds : (IF m < 100000 THEN TRUE ELSE nw = 0) /\ Step([a |-> "msg", m |-> m])
 Next == NNew \/ NSnap \/ NMsg
 Spec == Init /\ [][Next]_vars
 
